@@ -26,11 +26,14 @@ CHECKS = {
                 'and the production-pair sentences cover those; struct oracle trusts Python reflection only.',
     },
     'C02': {
-        'technique': 'property-based robustness testing / fuzzing with structured generators: grammar derivations, '
-                     'token mutations of valid statements, random lexeme sequences, SQL-flavoured and Unicode text; '
-                     'oracle = outcome is a tree, ParsingException or LexError (exception class + innermost frame '
-                     'as failure site), 30 s watchdog for termination',
-        'level': 'Sampled search; the crash oracle is exact. Termination is observed under a watchdog, not proved.',
+        'technique': 'property-based robustness testing / fuzzing: coverage-guided byte-level campaign (atheris / '
+                     'libFuzzer, 16 processes, dictionary of all lexemes) + structured Hypothesis generators (grammar '
+                     'derivations, token mutations of valid statements, random lexeme sequences, SQL-flavoured and Unicode '
+                     'text, pump inputs) + bounded-exhaustive layers (production-pair sentences of the live grammars, '
+                     'option lists of the MindsDB commands); oracle = outcome is a tree, ParsingException or LexError '
+                     '(exception class + innermost frame as failure site), 30 s watchdog for termination',
+        'level': 'Sampled and coverage-guided search plus two finite layers that are enumerated completely; the crash '
+                 'oracle is exact. Termination is observed under a watchdog, not proved.',
         'note': 'Known internal-error sites of the pinned tree are listed per (exception type, function) and '
                 'skipped; any other site is a violation.',
     },
@@ -141,12 +144,13 @@ CHECKS = {
     },
     'C09': {
         'technique': 'bounded-exhaustive enumeration + property-based invariant checking: every join shape over '
-                     '{table, model, TS model, sub-select, native query, injected data} up to length 3/4 x variants x 12 '
+                     '{table, model, TS model, sub-select, native query, injected data} up to length 3/4 x variants x 13 '
                      'statement wraps on fixed catalogs, random model/catalog combinations beyond; oracle = dataflow '
                      'invariants over every Result / Parameter(Result) / held step found by reflection, exception class',
         'level': 'Exhaustive over join shapes up to length 3 (4 in thorough) on two catalogs; sampled over catalogs, '
                  'WHERE atoms and options. Exact invariant oracle with its own unit self-test.',
-        'note': 'Single-sink clause is waived (counted) for statements with a WITH clause (unused / eagerly planned CTEs).',
+        'note': 'Single-sink clause is waived (counted) for statements with a WITH clause (unused / eagerly planned CTEs); '
+                'the answer clause (every table the statement reads is mentioned by a step feeding the last one) is not.',
     },
     'C10': {
         'technique': 'property-based testing against a reference model + metamorphic relation: queries with tables and '
